@@ -23,6 +23,13 @@ TRUSTED = [
     "python oracle: datetime arithmetic of CPython (independent of model and implementation)",
 ]
 
+CLAIMED = True
+MANIFEST = {
+ "level_text": "Theorems (all instants, no bound): every in-band integer spelling (s/ms/us/ns) of an instant normalises to the floor of the instant, 20+ digit magnitudes are rejected. The division operator and digit bands of the model are regenerated from src/shared/time.rs on every run, and the model's TimeParser (RFC 3339, date-only, numeric strings, JSON numbers) is run against the real TimeParser on generated and mutated spellings.",
+ "design_ref": "DESIGN.md \u00a76 C16",
+ "level_note": "Trusted: Coq kernel; tools/gen_params.py; ExtrOcamlBasic extraction + OCaml driver; the Rust harness; CPython datetime (oracle). chrono's parsers are modelled by hand (differentially tested, not proved); named time zones not modelled."
+}
+
 EPOCH = datetime.datetime(1970, 1, 1)
 
 
